@@ -101,9 +101,10 @@ fn guarded_deliver(w: &World, item: &Item, bytes: &[u8], r: usize, what: &str, c
     }
 }
 
-fn script(cfg: WorldCfg) -> Vec<Item> {
+fn script(cfg: WorldCfg, group_id: &[u8]) -> Vec<Item> {
     let tag = if cfg.encrypt_handshake { "private" } else { "public" };
     let mut w = World::new(cfg, 6);
+    w.group_id = group_id.to_vec();
     for p in 0..6 {
         w.set_psk(p, 0, b"psk-zero-value".to_vec());
     }
@@ -155,6 +156,17 @@ fn script(cfg: WorldCfg) -> Vec<Item> {
         let n = items.len();
         items.push(Item { kind: format!("{tag}-proposal-update"), bytes: msg_bytes(&p1), pre: pre.clone(), receivers: vec![0, 1, 3], sender: 2, app: None, tree: None, partner: Some(n + 1) });
         items.push(Item { kind: format!("{tag}-proposal-remove"), bytes: msg_bytes(&p2), pre: pre.clone(), receivers: vec![0, 2, 3], sender: 1, app: None, tree: None, partner: Some(n) });
+        // a member proposal that is never delivered in its epoch, and a new-member proposal:
+        // both exist only to be replayed into later epochs
+        {
+            let mut g2 = w.g(2).clone();
+            let undelivered = stores::with_fork(|| g2.propose_group_context_extensions(w.context_ext(Some(0x55)), vec![]))?;
+            items.push(Item { kind: format!("{tag}-proposal-undelivered"), bytes: msg_bytes(&undelivered), pre: pre.clone(), receivers: vec![0, 1, 3], sender: 2, app: None, tree: None, partner: None });
+            let gi = w.g(0).group_info_message(false)?;
+            let t = ExportedTree::from_bytes(&tree_bytes(w.g(0))).ok();
+            let nm = stores::with_fork(|| w.parties[5].client.external_add_proposal(&gi, t, vec![], Default::default(), Default::default(), w.now()))?;
+            items.push(Item { kind: "public-proposal-new-member".into(), bytes: msg_bytes(&nm), pre: pre.clone(), receivers: vec![0, 1, 2, 3], sender: 5, app: None, tree: None, partner: None });
+        }
         for p in [0, 1, 3] {
             w.process(p, &p1)?;
         }
@@ -572,17 +584,9 @@ pub fn run(ctx: &mut Ctx) {
         }
     }
     for cfg in cfgs {
-        let items = script(cfg.clone());
-        let mut cfg2 = cfg.clone();
-        cfg2.retention = 3;
-        let second = {
-            // same scripted parties, another group id
-            let mut v = script(cfg2);
-            for it in v.iter_mut() {
-                it.pre.group_id = b"verif-group".to_vec();
-            }
-            v
-        };
+        let items = script(cfg.clone(), b"verif-group");
+        // the same scripted history by parties of the same names in a group with another id
+        let second = script(cfg.clone(), b"verif-group-B");
         for i in 0..items.len() {
             let mine = ctx.mine(shard_item);
             shard_item += 1;
